@@ -44,6 +44,42 @@ def _covers(xs, B, m):
     return z3.Or(alts) if alts else z3.BoolVal(False)
 
 
+def vector_partitions(g, m):
+    """all ways to split the count vector g into exactly m non-zero parts (unordered: parts are generated in non-increasing lex order)"""
+    import itertools as it
+    g = tuple(g)
+    def parts_le(cap, rem):
+        # vectors v with 0 <= v <= rem componentwise, v != 0, v <= cap lexicographically
+        for v in it.product(*[range(r, -1, -1) for r in rem]):
+            if any(v) and v <= cap:
+                yield v
+    def rec(rem, k, cap):
+        if k == 0:
+            if not any(rem): yield ()
+            return
+        if sum(rem) < k: return
+        for v in parts_le(cap, rem):
+            for rest in rec(tuple(a - b for a, b in zip(rem, v)), k - 1, v):
+                yield (v,) + rest
+    yield from rec(g, m, g)
+
+
+def covers_grouped(groups, uniq, B, m):
+    """tier C: some assignment of the items (groups[i] copies of the value uniq[i]) fills m bins to at least B.
+    It is enough to consider the assignments that use every item (adding items to a covered bin keeps it covered) and, since
+    equal items are interchangeable, only the number of copies of each value that every bin receives."""
+    if m == 0: return z3.BoolVal(True)
+    def build():
+        alts = []; seen = set()
+        for vp in vector_partitions(groups, m):
+            types = tuple(sorted(set(vp)))
+            if types in seen: continue
+            seen.add(types)
+            alts.append(z3.And([zsum(t[i] * uniq[i] for i in range(len(uniq)) if t[i]) >= B for t in types]))
+        return z3.Or(alts) if alts else z3.BoolVal(False)
+    return ctx_cache(('coversg', m, tuple(groups)), build)
+
+
 def bins_equal_as_multisets(A, Bn):
     """two lists of bins (z3 value terms) are equal as multisets of multisets"""
     if len(A) != len(Bn): return z3.BoolVal(False)
@@ -57,14 +93,14 @@ def bins_equal_as_multisets(A, Bn):
 
 
 class Pack:
-    def __init__(self, alg, n, B=None, order='any', pres='nv', lo=None, den=1, checks=('c03',), fixed=None):
+    def __init__(self, alg, n, B=None, order='any', pres='nv', lo=None, den=1, checks=('c03',), fixed=None, groups=None):
         self.alg = alg; self.n = n; self.B = B; self.order = order; self.pres = pres; self.den = den
         self.cover = alg in COVERS
         self.lo = lo if lo is not None else (1 if self.cover else 0)
-        self.checks = tuple(checks); self.fixed = {int(a): b for a, b in (fixed or {}).items()}
+        self.checks = tuple(checks); self.fixed = {int(a): b for a, b in (fixed or {}).items()}; self.groups = groups
 
     def setup(self, c):
-        idx = item_vars(c, self.n, self.lo, self.order, fixed=self.fixed)
+        idx = item_vars(c, self.n, self.lo, self.order, fixed=self.fixed, groups=self.groups)
         xs = [c.zvars[i] for i in idx]
         bi = c.newvar('B')
         Bz = c.zvars[bi]
@@ -227,6 +263,10 @@ class Pack:
             bad = []
             for opt in range(m + 1, n + 1):
                 ok = {'cdec': 2 * m >= opt - 1, 'c23': 3 * m >= 2 * (opt - 1), 'c34': 4 * m >= 3 * opt - 16}[alg]
+                if not ok and self.groups:
+                    # covers(opt+1) implies covers(opt): the smallest optimum that would break the guarantee decides
+                    uniq = [xs[sum(self.groups[:g])] for g in range(len(self.groups))]
+                    bad.append(z3.Not(covers_grouped(self.groups, uniq, Bz, opt))); break
                 if not ok: bad.append(z3.Not(covers(xs, Bz, opt)))
             if bad:
                 c.check('approximation-ratio', z3.And(bad), '%s covered %d bins; the optimum is too large for the documented guarantee' % (alg, m))
